@@ -125,15 +125,17 @@ pub struct Engine {
     pub last_err: String,
     /// the prover-model case of the last build (with the implementation's outcome), for families that emit it
     pub last_present: Option<(Value, Value)>,
+    /// derive revocation states incrementally (list 0 from scratch, then list by list) instead of from scratch for the target list
+    pub incremental: bool,
 }
 
 impl Engine {
     pub fn new(cast: Cast) -> Engine {
-        Engine { cast, uid: 0, session: 0, accs: AccTable::default(), last_err: String::new(), last_present: None }
+        Engine { cast, uid: 0, session: 0, accs: AccTable::default(), last_err: String::new(), last_present: None, incremental: false }
     }
 
     fn states(&self, plan: &Plan) -> Vec<Option<CredentialRevocationState>> {
-        plan.creds.iter().map(|cu| cu.state_list.and_then(|li| self.cast.rev_state(cu.held, li))).collect()
+        plan.creds.iter().map(|cu| cu.state_list.and_then(|li| if self.incremental { self.cast.rev_state_incremental(cu.held, li) } else { self.cast.rev_state(cu.held, li) })).collect()
     }
 
     /// ghost of the revocation state passed for credential `ci` of the plan (`SymNrp`), if any
@@ -165,7 +167,7 @@ impl Engine {
             let rev_state = self.state_ghost(plan, states, ci);
             let h = &self.cast.creds[cu.held];
             let d = &self.cast.w.defs[h.def];
-            let ts = cu.state_list.map(RegHist::ts).or(cu.ts_only);
+            let ts = cu.ts_only.or(cu.state_list.map(RegHist::ts));
             let mut attrs = vec![];
             let mut preds = vec![];
             for r in plan.refs.iter().filter(|r| r.cred == Some(ci)) {
@@ -219,7 +221,7 @@ impl Engine {
         let mut pc = PresentCredentials::default();
         let mut used = vec![];
         for (ci, cu) in plan.creds.iter().enumerate() {
-            let ts = cu.state_list.map(RegHist::ts).or(cu.ts_only);
+            let ts = cu.ts_only.or(cu.state_list.map(RegHist::ts));
             let mut x = pc.add_credential(&self.cast.creds[cu.held].cred, ts, states[ci].as_ref());
             let mut any = false;
             for r in plan.refs.iter().filter(|r| r.cred == Some(ci)) {
@@ -266,7 +268,7 @@ impl Engine {
         let mut pc = PresentCredentials::default();
         let mut used = vec![];
         for (ci, cu) in plan.creds.iter().enumerate() {
-            let ts = cu.state_list.map(RegHist::ts).or(cu.ts_only);
+            let ts = cu.ts_only.or(cu.state_list.map(RegHist::ts));
             let mut x = pc.add_credential(&self.cast.creds[cu.held].w3c, ts, states[ci].as_ref());
             let mut any = false;
             for r in plan.refs.iter().filter(|r| r.cred == Some(ci)) {
